@@ -74,10 +74,13 @@ def xf_names(m, n, hermitian=False):
     names += ["equalmod", "constant", "rowgraded", "colgraded", "circulant_q", "toeplitz_q", "checker", "lay:F", "lay:T", "lay:view", "lay:ro",
               "negzero_col", "negated_checker", "nearcol", "depcol1",
               "allneg", "nonpos", "nearreal", "twodeps", "halfdep_top", "halfdep_bot"]
+    # nearly structured inputs at several magnitudes: structured part O(1), everything else scaled by 2^-e
+    names += [f"near:{st}:{e}" for st in ("diag", "tridiag", "hess", "triu") for e in (20, 30, 40, 48)]
     if m == n:
-        names += [f"sp:{k}" for k in G.SPECIAL_KINDS] + ["hermoff_qdiag"]
+        names += [f"sp:{k}" for k in G.SPECIAL_KINDS] + ["hermoff_qdiag", "partherm:i", "partherm:j", "partherm:k", "partherm:jk"]
     if hermitian:
-        names = [x for x in names if x not in ("rowgraded", "colgraded", "toeplitz_q", "negzero_col", "nearcol", "depcol1", "hermoff_qdiag", "allneg", "nonpos", "twodeps", "halfdep_top", "halfdep_bot")] + ["congraded"]
+        names = [x for x in names if x not in ("rowgraded", "colgraded", "toeplitz_q", "negzero_col", "nearcol", "depcol1", "hermoff_qdiag", "allneg", "nonpos", "twodeps", "halfdep_top", "halfdep_bot")
+                 and not x.startswith("partherm:") and not x.startswith("near:hess") and not x.startswith("near:triu")] + ["congraded"]
         names = [x for x in names if not x.startswith("sp:") or x[3:] in ("exchange", "ones", "hadamard_like", "path_laplacian")]
     return names
 
@@ -183,6 +186,26 @@ def xf_build(name, m, n, fill, hermitian=False):
             h = m // 2
             rows = slice(0, h) if name == "halfdep_top" else slice(m - h, m)
             A[rows, 1] = O.qmul(A[rows, 0], np.broadcast_to(np.array([0.5, -1.0, 0.0, 2.0]), (A[rows, 0].shape[0], 4)))
+    elif name.startswith("near:"):
+        _, st, e = name.split(":")
+        keep = {"diag": lambda i, j: i == j, "tridiag": lambda i, j: abs(i - j) <= 1, "hess": lambda i, j: i <= j + 1, "triu": lambda i, j: i <= j}[st]
+        A = base.copy()
+        for i in range(m):
+            for j in range(n):
+                if not keep(i, j):
+                    A[i, j] = np.ldexp(A[i, j], -int(e))
+        if hermitian:
+            A = _hermitize(A)
+    elif name.startswith("partherm:"):
+        # Hermitian symmetry in the real part and in all imaginary planes EXCEPT the named ones, which are symmetric instead of
+        # skew-symmetric: not Hermitian, and a Hermitian test that forgets those planes says it is
+        A = _hermitize(base)
+        for ch in name.split(":")[1]:
+            t = "1ijk".index(ch)
+            P_ = base[..., t]
+            A[..., t] = 0.5 * (P_ + P_.T)
+            if not (A[..., t] - np.diag(np.diag(A[..., t]))).any() and n >= 2:
+                A[0, 1, t] = A[1, 0, t] = 1.0
     elif name == "hermoff_qdiag":  # Hermitian off-diagonal part, quaternion (non-real) diagonal: NOT Hermitian, a legal general matrix
         A = _hermitize(base)
         for i in range(n):
@@ -266,3 +289,22 @@ def orthonormal_completion(cols):
                 v = v - O.qmatmul(qi, O.qmatmul(O.qH(qi), v))
         Q[:, j : j + 1] = v / O.fro(v)
     return Q
+
+
+def hermitian_exact_zero(n, where, fill):
+    """Exactly Hermitian n x n matrix with nullity 1 whose zero eigenvalue is EXACT: a positive definite Gram matrix with a dead first /
+    last channel (zero row and column), or diag(n-1, ..., 1, 0)."""
+    if where == "diag":
+        A = np.zeros((n, n, 4))
+        for i in range(n):
+            A[i, i, 0] = float(n - 1 - i)
+        return A
+    B = fill.quat(n, n, bits=3, lo=-8, hi=8)
+    A = O.qmatmul(B, O.qH(B)) / 16.0 + O.qeye(n)
+    A = 0.5 * (A + O.qH(A))
+    for i in range(n):
+        A[i, i, 1:] = 0.0
+    z = n - 1 if where == "last" else 0
+    A[z, :] = 0.0
+    A[:, z] = 0.0
+    return A
